@@ -2,16 +2,30 @@
 
 from typing import Any, Dict, List, Mapping, Optional, Sequence
 
-from ..exc import ValidationError, VariablesCoercionError
+from ..exc import CoercionError, ValidationError, VariablesCoercionError
 from ..lang.ast import (
     Document,
     FragmentDefinition,
+    Node,
     OperationDefinition,
     Selection,
 )
 from ..schema import Schema
 from .coerce_value import coerce_variable_values
-from .collect_fields import collect_fields_untyped
+from .collect_fields import _skip_selection, collect_fields_untyped
+
+
+def _skip_unless_unknown(node: Node, variables: Mapping[str, Any]) -> bool:
+    """
+    ``@skip`` / ``@include`` which cannot be evaluated (the variable is missing
+    or null in the mapping the rule has, e.g. for an operation the request does
+    not execute) keep the selection: the depth is then an upper bound over the
+    unknown condition and the rule never raises.
+    """
+    try:
+        return _skip_selection(node, variables)  # type: ignore
+    except CoercionError:
+        return False
 
 
 def _nesting_levels(
@@ -27,7 +41,9 @@ def _nesting_levels(
     merged (as they are during execution) so all their sub-selections count.
     """
     levels = 0
-    collected = collect_fields_untyped(selections, fragments, variables)
+    collected = collect_fields_untyped(
+        selections, fragments, variables, skip_selection=_skip_unless_unknown
+    )
     for fields in collected.values():
         subselections = [
             selection
